@@ -34,7 +34,7 @@ def gen_ruleset(rng, nnames, customs=True):
         if i > 0:
             leaves += ['rule:' + u for u in UNDEF]
         if customs:
-            leaves += ['c4a:m', 'c3a:m', 'c4b:m']
+            leaves += ['c4a:m', 'c3a:m', 'c4b:m', 'c3k:m', 'c3o:m']
         if i > 0 and rng.random() < 0.25:
             # alias chain link
             rules[n] = 'rule:' + names[i - 1]
@@ -66,6 +66,11 @@ def run(run, binfo):
         {'p': 'role:r0 and role:r0 and rule:b or role:r0', 'b': 'role:r1 and role:r2'},
         {'p': 'rule:b and rule:b or rule:b', 'b': 'role:r0 or role:r1 and role:r2'},
         {'p': 'role:r0 and rule:b and rule:c or role:r2 and rule:b', 'b': 'role:r1 and role:r2', 'c': 'not rule:b and role:r0'},
+        # diamonds several levels deep whose arms are all evaluated (no short circuit): plenty of evaluation, little depth
+        dict([('l%d' % i, 'rule:l%d and rule:l%d' % (i + 1, i + 1)) for i in range(6)] + [('l6', 'role:r0'), ('p', 'rule:l0')]),
+        dict([('l%d' % i, 'not rule:l%d or not rule:l%d' % (i + 1, i + 1)) for i in range(6)] + [('l6', 'role:r0'), ('p', 'rule:l0')]),
+        dict([('l%d' % i, 'rule:l%d and rule:l%d and rule:l%d' % (i + 1, i + 1, i + 1)) for i in range(4)] +
+             [('l4', 'role:r1'), ('p', 'rule:l0 and c3k:m and c3o:m')]),
     ]
     for s_i in range(nsets):
         if s_i < len(curated):
@@ -75,7 +80,8 @@ def run(run, binfo):
             names, rules = gen_ruleset(rng, rng.randint(2, 6))
         default = rng.choice([('none',), ('name', 'default'), ('name', 'nodefault'), ('check', 'role:r1'),
                               ('check', '@'), ('check', 'not role:r0'), ('check', 'role:r0 or role:r2')])
-        custom = {'c4a': rng.random() < 0.5, 'c3a': rng.random() < 0.5, 'c4b': rng.random() < 0.5}
+        custom = {'c4a': rng.random() < 0.5, 'c3a': rng.random() < 0.5, 'c4b': rng.random() < 0.5,
+                  'c3k': rng.random() < 0.7, 'c3o': rng.random() < 0.7}
         # metamorphic partner: inline one reference in one rule
         refs = [(n, m) for n in names for m in names if ('rule:' + m) in rules[n].split() or rules[n] == 'rule:' + m]
         partner = None
